@@ -426,6 +426,7 @@ class FnTranslator:
         self.ret_shape_candidates = []
         if not hasattr(self, 'ret_option'): self.ret_option = None
         env, names = self.params()
+        self.param_names = names
         stmts = list(self.fn.body)
         final = None
         block = self.sig.get('block')
@@ -454,6 +455,8 @@ class FnTranslator:
         return lname, head + '\n' + body + '\n', ret
 
 
+META = []   # filled by translate_functions: one record per translated function (used by the translator self-check)
+
 def translate_functions(path, sigs, namespace, header=''):
     """sigs: ordered dict python-function-name -> {'params': [(name, kind)...], optional 'block', 'lean_name'}"""
     src = open(path).read()
@@ -476,6 +479,8 @@ def translate_functions(path, sigs, namespace, header=''):
         except Refuse as e:
             raise Refuse(f'{os.path.basename(path)}:{name}: {e}')
         rets[name] = ret
+        META.append({'py': name, 'lean': lname, 'params': list(t.param_names), 'sig': sig, 'path': path,
+                     'block': bool(sig.get('block')) or bool(sig.get('call_as'))})
         out.append(f'/-- translated from `{os.path.basename(path)}:{name}` (line {fns[name].lineno}) -/\n' + text)
         if t.specialised or t.folded:
             notes.append(f'{name}: specialised {t.specialised}, statically folded {t.folded}')
